@@ -338,6 +338,121 @@ def weighted_and_embedding(tier: str) -> list[tuple[str, str]]:
     return errs
 
 
+def _embed(U: np.ndarray, loc: tuple, radixes: tuple) -> np.ndarray:
+    """U acting on the qudits `loc` (in that order) of a register with the
+    given radixes, written with explicit Kronecker products: P^T (U (x) I) P
+    where P is the digit permutation that brings `loc` to the front (built
+    here from mixed-radix digits, not with PermutationMatrix)."""
+    n = len(radixes)
+    rest = [q for q in range(n) if q not in loc]
+    order = list(loc) + rest
+    dim = int(np.prod(radixes))
+    new_rad = [radixes[q] for q in order]
+    P = np.zeros((dim, dim))
+    for x in range(dim):
+        digits = []
+        r = x
+        for q in reversed(range(n)):
+            digits.append(r % radixes[q])
+            r //= radixes[q]
+        digits.reverse()
+        y = 0
+        for pos in range(n):
+            y = y * new_rad[pos] + digits[order[pos]]
+        P[y, x] = 1
+    rest_dim = int(np.prod([radixes[q] for q in rest])) if rest else 1
+    return P.T @ np.kron(U, np.eye(rest_dim)) @ P
+
+
+def tensor_checks(tier: str) -> tuple[list[tuple[str, str]], int]:
+    """UnitaryMatrix.otimes / ipower and UnitaryBuilder.apply_* against
+    explicit Kronecker-product computations (float tolerance 1e-10)."""
+    from bqskit.qis.unitary.unitarybuilder import UnitaryBuilder
+    from bqskit.qis.unitary.unitarymatrix import UnitaryMatrix
+    errs: list[tuple[str, str]] = []
+    n_eval = 0
+    rng = np.random.RandomState(7)
+
+    def rand(radixes: tuple) -> Any:
+        d = int(np.prod(radixes))
+        q, r = np.linalg.qr(rng.randn(d, d) + 1j * rng.randn(d, d))
+        return UnitaryMatrix(q * (np.diag(r) / abs(np.diag(r))), radixes)
+    shapes = [(2,), (3,), (2, 2), (2, 3), (3, 2), (4,), (2, 3, 2)]
+    # otimes: matrix = Kronecker product, radixes concatenated
+    for a, b in itertools.product(shapes[:6], repeat=2):
+        A, B = rand(a), rand(b)
+        n_eval += 1
+        got = A.otimes(B)
+        if tuple(got.radixes) != a + b or not np.allclose(
+                got.numpy, np.kron(A.numpy, B.numpy), atol=1e-10):
+            errs.append(('UnitaryMatrix.otimes', 'radixes %s (x) %s' % (a, b)))
+        if tuple(A.radixes) != a or tuple(B.radixes) != b:
+            errs.append(('UnitaryMatrix.otimes',
+                         'operand radixes changed: %s (x) %s' % (a, b)))
+    for a, b, c in [((2,), (3,), (2,)), ((3,), (2, 2), (2,)),
+                    ((2,), (2,), (2,))]:
+        A, B, Cm = rand(a), rand(b), rand(c)
+        n_eval += 1
+        got = A.otimes(B, Cm)
+        if tuple(got.radixes) != a + b + c or not np.allclose(
+                got.numpy, np.kron(np.kron(A.numpy, B.numpy), Cm.numpy),
+                atol=1e-10):
+            errs.append(('UnitaryMatrix.otimes',
+                         'three factors %s %s %s' % (a, b, c)))
+    # ipower: repeated product, negative powers of the inverse
+    for a in shapes:
+        A = rand(a)
+        for k in range(-3, 5):
+            n_eval += 1
+            want = np.eye(A.dim, dtype=complex)
+            for _ in range(abs(k)):
+                want = want @ (A.numpy if k > 0 else A.numpy.conj().T)
+            got = A.ipower(k)
+            if tuple(got.radixes) != a or not np.allclose(
+                    got.numpy, want, atol=1e-10):
+                errs.append(('UnitaryMatrix.ipower',
+                             'radixes %s power %d' % (a, k)))
+    # builder: apply on the right / left of every ordered location
+    regs = [(2, 2), (2, 3), (3, 2, 2), (2, 3, 2)]
+    if tier != 'quick':
+        regs += [(2, 2, 2, 2), (3, 2, 3), (2, 4, 3)]
+    for radixes in regs:
+        n = len(radixes)
+        for k in range(1, n + 1):
+            for loc in itertools.permutations(range(n), k):
+                U = rand(tuple(radixes[q] for q in loc))
+                E = _embed(U.numpy, loc, radixes)
+                Ed = _embed(U.numpy.conj().T, loc, radixes)
+                base = rand(radixes)
+                for side, inv in itertools.product(('right', 'left'),
+                                                   (False, True)):
+                    n_eval += 1
+                    b = UnitaryBuilder(n, list(radixes))
+                    b.apply_right(base, list(range(n)))
+                    M = (Ed if inv else E)
+                    if side == 'right':
+                        ev = None if inv else b.eval_apply_right(U.numpy, loc)
+                        b.apply_right(U, loc, inv)
+                        want = M @ base.numpy
+                    else:
+                        ev = None if inv else b.eval_apply_left(U.numpy, loc)
+                        b.apply_left(U, loc, inv)
+                        want = base.numpy @ M
+                    got = b.get_unitary()
+                    if tuple(got.radixes) != tuple(radixes) \
+                            or not np.allclose(got.numpy, want, atol=1e-10):
+                        errs.append((
+                            'UnitaryBuilder.apply_' + side,
+                            'radixes %s location %s inverse %s' % (
+                                radixes, loc, inv)))
+                    if ev is not None and not np.allclose(
+                            ev, want, atol=1e-10):
+                        errs.append((
+                            'UnitaryBuilder.eval_apply_' + side,
+                            'radixes %s location %s' % (radixes, loc)))
+    return errs, n_eval
+
+
 def run(repo: str, tier: str, seed: int, jobs: int) -> dict:
     t0 = time.time()
     max_n = 5 if tier == 'quick' else 6
@@ -360,6 +475,9 @@ def run(repo: str, tier: str, seed: int, jobs: int) -> dict:
     extra = weighted_and_embedding(tier)
     for m, msg in extra:
         fails.setdefault(m, []).append({'msg': msg})
+    terrs, tcount = tensor_checks(tier)
+    for m, msg in terrs:
+        fails.setdefault(m, []).append({'msg': msg})
     methods = [
         '__init__', '__iter__', 'get_neighbors_of', 'get_qudit_degrees',
         '__contains__', 'is_fully_connected', 'is_fully_connected_without',
@@ -370,13 +488,21 @@ def run(repo: str, tier: str, seed: int, jobs: int) -> dict:
         'linear', 'ring', 'star', 'grid',
         'PermutationMatrix.from_qudit_location',
     ]
+    tensor_methods = [
+        'UnitaryMatrix.otimes', 'UnitaryMatrix.ipower',
+        'UnitaryBuilder.apply_right', 'UnitaryBuilder.apply_left',
+        'UnitaryBuilder.eval_apply_right', 'UnitaryBuilder.eval_apply_left',
+    ]
+    methods += tensor_methods
     results = []
     for m in methods:
         fl = fails.get(m, [])
         results.append({
             'function': 'CouplingGraph.' + m if '.' not in m else m,
-            'evaluated': total, 'nontrivial': total, 'skipped': 0,
-            'distinct_behaviours': total,
+            'evaluated': tcount if m in tensor_methods else total,
+            'nontrivial': tcount if m in tensor_methods else total,
+            'skipped': 0,
+            'distinct_behaviours': tcount if m in tensor_methods else total,
             'failures': [{
                 'function': 'CouplingGraph.' + m if '.' not in m else m,
                 'kind': 'ensures', 'clause': f['msg'][:300],
@@ -384,8 +510,12 @@ def run(repo: str, tier: str, seed: int, jobs: int) -> dict:
                 'args': '', 'observed': f['msg'],
             } for f in fl[:3]],
             'spec_errors': [], 'samples': [], 'wall_s': 0,
-            'scope': 'all labelled graphs on 1..%d vertices' % max_n,
-            'exhaustive': True,
+            'scope': 'all labelled graphs on 1..%d vertices' % max_n
+            if m not in tensor_methods else
+            '%d evaluations: Haar unitaries on registers of 1-3 (thorough: '
+            '4) qudits with radixes 2-4, every ordered location, both sides, '
+            'inverse flag; tolerance 1e-10' % tcount,
+            'exhaustive': m not in tensor_methods,
         })
     results[0]['samples'] = [{'graphs': total}]
     return {
@@ -397,7 +527,9 @@ def run(repo: str, tier: str, seed: int, jobs: int) -> dict:
             'larger graphs are not covered' % max_n,
             'all_pairs_shortest_path is compared for distinct vertices '
             'only (its diagonal is the shortest closed walk; see DESIGN)',
-            'UnitaryMatrix / UnitaryBuilder tensor arithmetic is floating '
-            'point and not decided here',
+            'UnitaryMatrix.otimes / ipower and UnitaryBuilder.apply_* are '
+            'compared with explicit Kronecker products on Haar-random '
+            'unitaries of small mixed-radix registers (floating point, '
+            'tolerance 1e-10): sampled, not exhaustive',
         ],
     }
